@@ -11,7 +11,7 @@ from __future__ import annotations
 
 import common
 import plain
-from control_common import gen_control_case, pick_target, union
+from control_common import gen_control_case, pick_target, pre_query, union
 from plain import make_sd
 
 RULE = ("random prepared diagram (plain history incl. skip operations, block, attractor-seed) or fresh, random non-empty "
@@ -46,6 +46,7 @@ def run_case(case):
     if not target:
         return {"fails": [], "diffs": [], "nontrivial": False}
     forb = sorted({ni.names[i % ni.n] for i in case["forbidden"]})
+    pre_query(case, sd, ni, target)
     try:
         ivs = succession_control(sd, target, strategy=case["strategy"], max_drivers_per_succession_node=case["bound"],
                                  forbidden_drivers=set(forb), successful_only=True,
